@@ -2,24 +2,29 @@
 //
 // usage: drv_matmul < cases        one output line per input line
 //   cfg <pw>            -> "cfg <pw> ok" if Packet<double>::size == pw, else "cfg <actual> MISMATCH"   ("cfg ?" just reports)
+//   cfg <pw> <pwf>      -> "cfg <pw> <pwf> ok" if also Packet<float>::size == pwf, else "cfg <actual> <actual> MISMATCH"
 //   P <Lspec> | <Rspec> -> product with the ** pseudo-operator
 //   Q <Lspec> | <Rspec> -> product with matmul(,)
+//   Pf / Qf             -> the same with element type float for BOTH operands (s-prefix BLAS); which operand kinds are instantiated
+//                          for float is fixed in drv_matmul_flt*.cpp (others: bad-op)
 // operand specs (words):
 //   M <a|p> <r|c> <PR> <PC> <op>* : <cell values>   dense matrix view of a PR x PC parent (r: Array(PR,PC), c: resize_column_major)
 //        op = T | r:b:e:s (rows stride(b,e,s)) | c:b:e:s (columns) | x2 (last; operand is the expression 2.0*view)
-//   V <a|p> <PN> <op>* : <cell values>              dense vector view;  op = s:b:e:s | x2
+//             | xs (last; operand is the expression view + view)
+//   V <a|p> <PN> <op>* : <cell values>              dense vector view;  op = s:b:e:s | x2 | xs
 //   FM <a|p> <R> <C> : <cell values>                FixedArray<double,act,R,C>      (sizes of the instantiated list)
 //   FV <a|p> <N> : <cell values>                    FixedArray<double,act,N>
 //   S <a|p> <type> <n> <op>* : <cell values>        SpecialMatrix; type in sq sqc symL symU lo loc up upc b00 b11 b22 b20 b02 b12
 //        cb00 cb11 cb22 cb20 cb02 cb12;  op = d:i0:i1 (submatrix_on_diagonal)*, then optionally T (.T()) or x2 (2.0*S);
 //        which (type, a|p, T|x2) combinations are instantiated is fixed in drv_matmul_s*.cpp (others: bad-op)
+//   FM / FV / S operands and M / V operands ending in x2 / xs need a plain dense partner (M or V without x2 / xs).
 //   cell values: one integer per storage cell of the parent, in memory order (padding cells included)
-// At least one operand of a pair must be a plain dense operand (M or V without x2).
 //
 // output:  L <desc> ; R <desc> ; <outcome>
 //   desc    = <rank> d=.. o=.. b=<offset of element 0 in the parent> a=<0|1> v=[logical values through operator()] c=[storage cell of
 //             each logical element, -1 for structural zeros]     (for special matrices d=n,n and o=<offset()>)
-//   outcome = EXC <class>   |   calls <call>* ; res <rank> d=.. o=.. v=[..] [; J <i>,<j>:L[..]R[..] ...]
+//   outcome = EXC <class>   |   calls <call>* ; res <rank> d=.. o=.. v=[..] [; tape <stmt>*] [; J <i>,<j>:L[..]R[..] ...]
+//   stmt    = <lhs>:<mult>*<gidx>,...   the statements recorded by an active product (see tape_report)
 //   call    = routine[flags;ints;ptrs;touched;x=<xerbla>;in=<ok|OUT>]   ptrs as L+off / R+off / C+off / T (other memory)
 //             touched = min..max#distinct per array argument, relative to the pointer passed
 #ifndef VERIF_DRV_MATMUL_H
@@ -47,12 +52,14 @@ struct Desc {
   bool active;
   std::vector<double> v;     // logical values, row-major over (i,j)
   std::vector<long> c;       // storage cell per logical element (relative to parent cell 0), -1 = none
-  const double* pbase;       // address of parent cell 0
+  const char* pbase;         // address of parent cell 0
+  int elsize;                // sizeof(element type)
   long ncells;               // number of parent cells
   long gbase;                // gradient index of parent cell 0 (active only)
   bool plain;                // BLAS is expected to read this operand in place
   long margin;               // band matrices: max(LDiags,UDiags), else 0
-  Desc() : rank(0), base(0), active(false), pbase(0), ncells(0), gbase(-1), plain(true), margin(0) { d[0] = d[1] = o[0] = o[1] = 0; }
+  Desc() : rank(0), base(0), active(false), pbase(0), elsize(8), ncells(0), gbase(-1), plain(true), margin(0) { d[0] = d[1] = o[0] = o[1] = 0; }
+  template <class T> void set_parent(const T* p, long n, long g) { pbase = reinterpret_cast<const char*>(p); elsize = (int)sizeof(T); ncells = n; gbase = g; }
   std::string str() const {
     std::ostringstream os;
     os << rank << " d=" << d[0]; if (rank == 2) os << "," << d[1];
@@ -93,9 +100,10 @@ struct Spec {
   Words head;                 // words before ':'
   std::vector<double> vals;   // cell values
   bool ok;
+  bool flt;                   // element type float (Pf / Qf lines)
 };
 inline Spec parse_spec(const Words& w, size_t b, size_t e) {
-  Spec s; s.ok = false;
+  Spec s; s.ok = false; s.flt = false;
   size_t i = b;
   for (; i < e && w[i] != ":"; ++i) s.head.push_back(w[i]);
   if (i == e) return s;
@@ -104,16 +112,16 @@ inline Spec parse_spec(const Words& w, size_t b, size_t e) {
   return s;
 }
 inline bool is_plain_dense(const Spec& s) {
-  return s.ok && (s.head[0] == "M" || s.head[0] == "V") && s.head.back() != "x2";
+  return s.ok && (s.head[0] == "M" || s.head[0] == "V") && s.head.back() != "x2" && s.head.back() != "xs";
 }
 
 struct BadOp { };
 
 // ------------------------------------------------------------------ describing typed operands
-template <bool A> void describe(Array<2, double, A>& view, const double* pbase, long ncells, long gbase, Desc& D) {
+template <class T, bool A> void describe(Array<2, T, A>& view, const T* pbase, long ncells, long gbase, Desc& D) {
   D.rank = 2; D.active = A;
   D.d[0] = view.dimension(0); D.d[1] = view.dimension(1); D.o[0] = view.offset(0); D.o[1] = view.offset(1);
-  D.pbase = pbase; D.ncells = ncells; D.gbase = gbase;
+  D.set_parent(pbase, ncells, gbase);
   D.base = view.empty() ? 0 : view.const_data() - pbase;
   for (Index i = 0; i < view.dimension(0); ++i)
     for (Index j = 0; j < view.dimension(1); ++j) {
@@ -121,10 +129,10 @@ template <bool A> void describe(Array<2, double, A>& view, const double* pbase, 
       D.c.push_back((view.const_data() + i * view.offset(0) + j * view.offset(1)) - pbase);
     }
 }
-template <bool A> void describe(Array<1, double, A>& view, const double* pbase, long ncells, long gbase, Desc& D) {
+template <class T, bool A> void describe(Array<1, T, A>& view, const T* pbase, long ncells, long gbase, Desc& D) {
   D.rank = 1; D.active = A;
   D.d[0] = view.dimension(0); D.o[0] = view.offset(0);
-  D.pbase = pbase; D.ncells = ncells; D.gbase = gbase;
+  D.set_parent(pbase, ncells, gbase);
   D.base = view.empty() ? 0 : view.const_data() - pbase;
   for (Index i = 0; i < view.dimension(0); ++i) {
     D.v.push_back(val(view(i)));
@@ -134,30 +142,30 @@ template <bool A> void describe(Array<1, double, A>& view, const double* pbase, 
 // storage cell of a special-matrix element.  passive: found by probing through the const operator() only (perturb one
 // storage cell at a time and see which logical element changes; a passive column-major band matrix has no usable
 // non-const operator(), SpecialMatrix.h:444 does not compile); active: gradient index of the element reference.
-template <class E> long cell_of(SpecialMatrix<double, E, false>& S, const double* pbase, long ncells, long, Index i, Index j) {
-  const SpecialMatrix<double, E, false>& cS = S;
-  double v0 = cS(i, j);
-  double* w = const_cast<double*>(pbase);
+template <class T, class E> long cell_of(SpecialMatrix<T, E, false>& S, const T* pbase, long ncells, long, Index i, Index j) {
+  const SpecialMatrix<T, E, false>& cS = S;
+  T v0 = cS(i, j);
+  T* w = const_cast<T*>(pbase);
   for (long k = 0; k < ncells; ++k) {
-    double keep = w[k];
-    w[k] = keep + 1048576.0;
+    T keep = w[k];
+    w[k] = keep + T(1048576);
     bool hit = cS(i, j) != v0;
     w[k] = keep;
     if (hit) return k;
   }
   return -1;
 }
-template <class E> long cell_of(SpecialMatrix<double, E, true>& S, const double*, long, long gbase, Index i, Index j) {
+template <class T, class E> long cell_of(SpecialMatrix<T, E, true>& S, const T*, long, long gbase, Index i, Index j) {
   try { return (long)S(i, j).gradient_index() - gbase; } catch (const index_out_of_bounds&) { return -1; }
 }
 template <class E> struct BandMargin { static const long value = 0; };
 template <MatrixStorageOrder O, Index LD, Index UD> struct BandMargin<BandEngine<O, LD, UD> > { static const long value = LD > UD ? LD : UD; };
-template <class E, bool A> void describe(SpecialMatrix<double, E, A>& S, const double* pbase, long ncells, long gbase, Desc& D) {
+template <class T, class E, bool A> void describe(SpecialMatrix<T, E, A>& S, const T* pbase, long ncells, long gbase, Desc& D) {
   D.rank = 2; D.active = A; D.margin = BandMargin<E>::value;
   D.d[0] = D.d[1] = S.dimension(0); D.o[0] = S.offset(); D.o[1] = 0;
-  D.pbase = pbase; D.ncells = ncells; D.gbase = gbase;
+  D.set_parent(pbase, ncells, gbase);
   D.base = S.dimension(0) == 0 ? 0 : S.const_data() - pbase;
-  const SpecialMatrix<double, E, A>& cS = S;
+  const SpecialMatrix<T, E, A>& cS = S;
   for (Index i = 0; i < S.dimension(0); ++i)
     for (Index j = 0; j < S.dimension(0); ++j) {
       D.v.push_back(val(cS(i, j)));
@@ -168,80 +176,86 @@ template <class X> void scale2(Desc& D) { for (size_t i = 0; i < D.v.size(); ++i
 
 // ------------------------------------------------------------------ building operands (continuation passing)
 // The visitor V has   template <class T> void go(const T& operand, Desc& d);
-template <bool A, class V> void build_M(const Spec& s, V& vis) {
+template <class T, bool A, class V> void build_M(const Spec& s, V& vis) {
   const Words& h = s.head;
   if (h.size() < 5) throw BadOp();
   long PR, PC; if (!to_long(h[3], PR) || !to_long(h[4], PC) || PR < 0 || PC < 0) throw BadOp();
-  Array<2, double, A> P;
+  Array<2, T, A> P;
   long ncells;
   if (h[2] == "r") { P.resize(PR, PC); ncells = P.empty() ? 0 : (long)P.offset(0) * PR; }
   else if (h[2] == "c") { P.resize_column_major(dimensions(PR, PC)); ncells = P.empty() ? 0 : PR * PC; }
   else throw BadOp();
   if ((long)s.vals.size() != ncells) throw BadOp();
-  for (long k = 0; k < ncells; ++k) P.data()[k] = s.vals[k];
-  const double* pbase = P.const_data();
+  for (long k = 0; k < ncells; ++k) P.data()[k] = (T)s.vals[k];
+  const T* pbase = P.const_data();
   long gbase = A ? (long)P.gradient_index() : -1;
-  Array<2, double, A> cur(P);
-  bool x2 = false;
+  Array<2, T, A> cur(P);
+  bool x2 = false, xs = false;
   for (size_t k = 5; k < h.size(); ++k) {
     long a, b, c;
-    if (x2) throw BadOp();
-    if (h[k] == "T") { Array<2, double, A> n(cur.T()); cur >>= n; }
-    else if (split3(h[k], 'r', a, b, c)) { Array<2, double, A> n(cur(stride(a, b, c), __)); cur >>= n; }
-    else if (split3(h[k], 'c', a, b, c)) { Array<2, double, A> n(cur(__, stride(a, b, c))); cur >>= n; }
+    if (x2 || xs) throw BadOp();
+    if (h[k] == "T") { Array<2, T, A> n(cur.T()); cur >>= n; }
+    else if (split3(h[k], 'r', a, b, c)) { Array<2, T, A> n(cur(stride(a, b, c), __)); cur >>= n; }
+    else if (split3(h[k], 'c', a, b, c)) { Array<2, T, A> n(cur(__, stride(a, b, c))); cur >>= n; }
     else if (h[k] == "x2") x2 = true;
+    else if (h[k] == "xs") xs = true;
     else throw BadOp();
   }
   Desc D; describe(cur, pbase, ncells, gbase, D);
-  if (x2) { scale2<void>(D); vis.go(2.0 * cur, D); } else vis.go(cur, D);
+  if (x2) { scale2<void>(D); vis.go(static_cast<T>(2) * cur, D); }
+  else if (xs) { scale2<void>(D); vis.go(cur + cur, D); }
+  else vis.go(cur, D);
 }
-template <bool A, class V> void build_V(const Spec& s, V& vis) {
+template <class T, bool A, class V> void build_V(const Spec& s, V& vis) {
   const Words& h = s.head;
   if (h.size() < 3) throw BadOp();
   long PN; if (!to_long(h[2], PN) || PN < 0) throw BadOp();
-  Array<1, double, A> P; P.resize(PN);
+  Array<1, T, A> P; P.resize(PN);
   long ncells = PN;
   if ((long)s.vals.size() != ncells) throw BadOp();
-  for (long k = 0; k < ncells; ++k) P.data()[k] = s.vals[k];
-  const double* pbase = P.const_data();
+  for (long k = 0; k < ncells; ++k) P.data()[k] = (T)s.vals[k];
+  const T* pbase = P.const_data();
   long gbase = A ? (long)P.gradient_index() : -1;
-  Array<1, double, A> cur(P);
-  bool x2 = false;
+  Array<1, T, A> cur(P);
+  bool x2 = false, xs = false;
   for (size_t k = 3; k < h.size(); ++k) {
     long a, b, c;
-    if (x2) throw BadOp();
-    if (split3(h[k], 's', a, b, c)) { Array<1, double, A> n(cur(stride(a, b, c))); cur >>= n; }
+    if (x2 || xs) throw BadOp();
+    if (split3(h[k], 's', a, b, c)) { Array<1, T, A> n(cur(stride(a, b, c))); cur >>= n; }
     else if (h[k] == "x2") x2 = true;
+    else if (h[k] == "xs") xs = true;
     else throw BadOp();
   }
   Desc D; describe(cur, pbase, ncells, gbase, D);
-  if (x2) { scale2<void>(D); vis.go(2.0 * cur, D); } else vis.go(cur, D);
+  if (x2) { scale2<void>(D); vis.go(static_cast<T>(2) * cur, D); }
+  else if (xs) { scale2<void>(D); vis.go(cur + cur, D); }
+  else vis.go(cur, D);
 }
-template <class V> void build_dense(const Spec& s, V& vis) {
+template <class T, class V> void build_dense(const Spec& s, V& vis) {
   const Words& h = s.head;
   if (h.size() < 2 || (h[1] != "a" && h[1] != "p")) throw BadOp();
   bool act = h[1] == "a";
-  if (h[0] == "M") { if (act) build_M<true>(s, vis); else build_M<false>(s, vis); }
-  else if (h[0] == "V") { if (act) build_V<true>(s, vis); else build_V<false>(s, vis); }
+  if (h[0] == "M") { if (act) build_M<T, true>(s, vis); else build_M<T, false>(s, vis); }
+  else if (h[0] == "V") { if (act) build_V<T, true>(s, vis); else build_V<T, false>(s, vis); }
   else throw BadOp();
 }
 
 // fixed arrays
-template <bool A, int R, int C, class V> void build_FM1(const Spec& s, V& vis) {
-  FixedArray<double, A, R, C> F;
+template <class T, bool A, int R, int C, class V> void build_FM1(const Spec& s, V& vis) {
+  FixedArray<T, A, R, C> F;
   if ((long)s.vals.size() != R * C) throw BadOp();
-  for (long k = 0; k < R * C; ++k) F.data()[k] = s.vals[k];
+  for (long k = 0; k < R * C; ++k) F.data()[k] = (T)s.vals[k];
   Desc D; D.rank = 2; D.active = A; D.d[0] = R; D.d[1] = C; D.o[0] = F.offset(0); D.o[1] = F.offset(1);
-  D.pbase = F.const_data(); D.ncells = R * C; D.gbase = A ? (long)F.gradient_index() : -1; D.base = 0;
+  D.set_parent(F.const_data(), R * C, A ? (long)F.gradient_index() : -1); D.base = 0;
   for (int i = 0; i < R; ++i) for (int j = 0; j < C; ++j) { D.v.push_back(val(F(i, j))); D.c.push_back(i * F.offset(0) + j * F.offset(1)); }
   vis.go(F, D);
 }
-template <bool A, int N, class V> void build_FV1(const Spec& s, V& vis) {
-  FixedArray<double, A, N> F;
+template <class T, bool A, int N, class V> void build_FV1(const Spec& s, V& vis) {
+  FixedArray<T, A, N> F;
   if ((long)s.vals.size() != N) throw BadOp();
-  for (long k = 0; k < N; ++k) F.data()[k] = s.vals[k];
+  for (long k = 0; k < N; ++k) F.data()[k] = (T)s.vals[k];
   Desc D; D.rank = 1; D.active = A; D.d[0] = N; D.o[0] = F.offset(0);
-  D.pbase = F.const_data(); D.ncells = N; D.gbase = A ? (long)F.gradient_index() : -1; D.base = 0;
+  D.set_parent(F.const_data(), N, A ? (long)F.gradient_index() : -1); D.base = 0;
   for (int i = 0; i < N; ++i) { D.v.push_back(val(F(i))); D.c.push_back(i * F.offset(0)); }
   vis.go(F, D);
 }
@@ -249,61 +263,65 @@ template <bool A, int N, class V> void build_FV1(const Spec& s, V& vis) {
 // special matrices.  VAR selects which operand variants are instantiated for an engine (compile time is dominated by
 // the number of distinct operand types): bit 0 = ".T()" allowed, bit 1 = "x2" (expression 2.0*S) allowed.
 template <bool On> struct SVariantT {
-  template <class SM, class V> static void run(SM& cur, const double* pbase, long ncells, long gbase, V& vis) {
+  template <class SM, class T, class V> static void run(SM& cur, const T* pbase, long ncells, long gbase, V& vis) {
     typename SM::transpose_type t(cur.T());
     Desc D; describe(t, pbase, ncells, gbase, D); vis.go(t, D);
   }
 };
-template <> struct SVariantT<false> { template <class SM, class V> static void run(SM&, const double*, long, long, V&) { throw BadOp(); } };
+template <> struct SVariantT<false> { template <class SM, class T, class V> static void run(SM&, const T*, long, long, V&) { throw BadOp(); } };
 template <bool On> struct SVariantX2 {
-  template <class SM, class V> static void run(SM& cur, const double* pbase, long ncells, long gbase, V& vis) {
-    Desc D; describe(cur, pbase, ncells, gbase, D); scale2<void>(D); vis.go(2.0 * cur, D);
+  template <class SM, class T, class V> static void run(SM& cur, const T* pbase, long ncells, long gbase, V& vis) {
+    Desc D; describe(cur, pbase, ncells, gbase, D); scale2<void>(D); vis.go(static_cast<T>(2) * cur, D);
   }
 };
-template <> struct SVariantX2<false> { template <class SM, class V> static void run(SM&, const double*, long, long, V&) { throw BadOp(); } };
+template <> struct SVariantX2<false> { template <class SM, class T, class V> static void run(SM&, const T*, long, long, V&) { throw BadOp(); } };
 
-template <class E, bool A> struct SMat : public SpecialMatrix<double, E, A> {
-  typedef SpecialMatrix<double, E, A> base;
-  typedef SpecialMatrix<double, typename E::transpose_engine, A> transpose_type;
+template <class T, class E, bool A> struct SMat : public SpecialMatrix<T, E, A> {
+  typedef SpecialMatrix<T, E, A> base;
+  typedef SpecialMatrix<T, typename E::transpose_engine, A> transpose_type;
 };
 
-template <class E, bool A, int VAR, class V> void build_S1(const Spec& s, V& vis) {
+template <class T, class E, bool A, int VAR, class V> void build_S1(const Spec& s, V& vis) {
   const Words& h = s.head;
   long n; if (h.size() < 4 || !to_long(h[3], n) || n < 0) throw BadOp();
-  SpecialMatrix<double, E, A> P(n);
+  SpecialMatrix<T, E, A> P(n);
   E eng;
   long ncells = n == 0 ? 0 : eng.data_size(n, P.offset());
   if ((long)s.vals.size() != ncells) throw BadOp();
-  for (long k = 0; k < ncells; ++k) P.data()[k] = s.vals[k];
-  const double* pbase = P.const_data();
+  for (long k = 0; k < ncells; ++k) P.data()[k] = (T)s.vals[k];
+  const T* pbase = P.const_data();
   long gbase = A ? (long)P.gradient_index() : -1;
   // views are chained by copy construction (SpecialMatrix::link / operator>>= loses the gradient index of an active
   // matrix: SpecialMatrix.h:1365 lacks the GradientIndex::set that Array::link has)
   struct Chain {
-    std::vector<SpecialMatrix<double, E, A>*> v;
+    std::vector<SpecialMatrix<T, E, A>*> v;
     ~Chain() { for (size_t i = v.size(); i > 0; --i) delete v[i - 1]; }
   } chain;
-  chain.v.push_back(new SpecialMatrix<double, E, A>(P));
+  chain.v.push_back(new SpecialMatrix<T, E, A>(P));
   size_t k = 4;
   long a, b;
   for (; k < h.size() && split2(h[k], 'd', a, b); ++k)
-    chain.v.push_back(new SpecialMatrix<double, E, A>(chain.v.back()->submatrix_on_diagonal(a, b)));
-  SpecialMatrix<double, E, A>& cur = *chain.v.back();
+    chain.v.push_back(new SpecialMatrix<T, E, A>(chain.v.back()->submatrix_on_diagonal(a, b)));
+  SpecialMatrix<T, E, A>& cur = *chain.v.back();
   bool tr = false, x2 = false;
   if (k < h.size() && h[k] == "T") { tr = true; ++k; }
   else if (k < h.size() && h[k] == "x2") { x2 = true; ++k; }
   if (k != h.size()) throw BadOp();
-  if (tr) SVariantT<(VAR & 1) != 0>::run(static_cast<SMat<E, A>&>(cur), pbase, ncells, gbase, vis);
+  if (tr) SVariantT<(VAR & 1) != 0>::run(static_cast<SMat<T, E, A>&>(cur), pbase, ncells, gbase, vis);
   else if (x2) SVariantX2<(VAR & 2) != 0>::run(cur, pbase, ncells, gbase, vis);
   else { Desc D; describe(cur, pbase, ncells, gbase, D); vis.go(cur, D); }
 }
 // dispatch helpers for the group files: S_P = passive only, S_PA = passive and active
 #define MM_COMMA ,
-#define S_P(TAG, ENG, VAR) if (h[2] == TAG) { if (act) throw BadOp(); build_S1<ENG, false, VAR>(s, v); return true; }
-#define S_PA(TAG, ENG, VAR) if (h[2] == TAG) { if (act) build_S1<ENG, true, 0>(s, v); else build_S1<ENG, false, VAR>(s, v); return true; }
+#define S_P(TAG, ENG, VAR) if (h[2] == TAG) { if (act) throw BadOp(); build_S1<MM_ELT, ENG, false, VAR>(s, v); return true; }
+#define S_PA(TAG, ENG, VAR, VARA) if (h[2] == TAG) { if (act) build_S1<MM_ELT, ENG, true, VARA>(s, v); else build_S1<MM_ELT, ENG, false, VAR>(s, v); return true; }
+#ifndef MM_ELT
+#define MM_ELT double        // element type of the group file (drv_matmul_flt*.cpp define it as float before including this header)
+#define MM_ELT_IS_FLOAT false
+#endif
 #define S_GROUP_HEAD \
   const Words& h = s.head; \
-  if (h[0] != "S") return false; \
+  if (h[0] != "S" || s.flt != MM_ELT_IS_FLOAT) return false; \
   if (h.size() < 4 || (h[1] != "a" && h[1] != "p")) throw BadOp(); \
   bool act = h[1] == "a";
 
@@ -318,10 +336,8 @@ inline std::string range_str(std::vector<long> t) {
   return os.str();
 }
 
-template <bool A> void res_desc(Array<2, double, A>& r, Desc& D) { describe(r, r.const_data(), 0, -1, D); }
-template <bool A> void res_desc(Array<1, double, A>& r, Desc& D) { describe(r, r.const_data(), 0, -1, D); }
-
-template <bool A, int Rank> long res_gidx(const Array<Rank, double, A>& r) { return A ? (long)r.gradient_index() : -1; }
+template <class T, bool A> void res_desc(Array<2, T, A>& r, Desc& D) { describe(r, r.const_data(), 0, -1, D); }
+template <class T, bool A> void res_desc(Array<1, T, A>& r, Desc& D) { describe(r, r.const_data(), 0, -1, D); }
 
 struct IdxList {
   std::vector<uIndex> v;
@@ -340,17 +356,25 @@ inline const char* exc_name(const std::exception& e) {
   return "std_exception";
 }
 
-extern verif::SpyStack* g_stack;
+// the recording stack of the driver: sees the gradient allocator (the temporaries a product creates are allocated upwards
+// from next_gradient() when the gap list is empty) besides the tape accessors of SpyStack
+struct MMStack : public verif::SpyStack {
+  long next_gradient() const { return (long)i_gradient_; }
+  bool no_gaps() const { return gap_list_.empty(); }
+};
+extern MMStack* g_stack;
 
-inline std::string classify_ptr(const void* p, const Desc& L, const Desc& R, const double* cbase, long clen_hint) {
-  const double* q = static_cast<const double*>(p);
+// all pointer arithmetic in bytes / element size: the operands of a case may be double or float
+inline std::string classify_ptr(const void* p, const Desc& L, const Desc& R, const void* cbase_, long clen_hint, int elsize) {
+  const char* q = static_cast<const char*>(p);
+  const char* cbase = static_cast<const char*>(cbase_);
   std::ostringstream os;
-  if (L.pbase && L.plain && q >= L.pbase && q < L.pbase + L.ncells) { os << "L+" << (q - L.pbase); return os.str(); }
-  if (R.pbase && R.plain && q >= R.pbase && q < R.pbase + R.ncells) { os << "R+" << (q - R.pbase); return os.str(); }
-  if (cbase && q >= cbase && q < cbase + clen_hint) { os << "C+" << (q - cbase); return os.str(); }
+  if (L.pbase && L.plain && q >= L.pbase && q < L.pbase + L.ncells * L.elsize) { os << "L+" << (q - L.pbase) / L.elsize; return os.str(); }
+  if (R.pbase && R.plain && q >= R.pbase && q < R.pbase + R.ncells * R.elsize) { os << "R+" << (q - R.pbase) / R.elsize; return os.str(); }
+  if (cbase && q >= cbase && q < cbase + clen_hint * elsize) { os << "C+" << (q - cbase) / elsize; return os.str(); }
   // the start pointer handed to ?gbmv for a band matrix lies up to max(LDiags,UDiags) cells before its storage
-  if (L.pbase && L.plain && L.margin && q >= L.pbase - L.margin && q < L.pbase) { os << "L" << (q - L.pbase); return os.str(); }
-  if (R.pbase && R.plain && R.margin && q >= R.pbase - R.margin && q < R.pbase) { os << "R" << (q - R.pbase); return os.str(); }
+  if (L.pbase && L.plain && L.margin && q >= L.pbase - L.margin * L.elsize && q < L.pbase) { os << "L-" << (L.pbase - q) / L.elsize; return os.str(); }
+  if (R.pbase && R.plain && R.margin && q >= R.pbase - R.margin * R.elsize && q < R.pbase) { os << "R-" << (R.pbase - q) / R.elsize; return os.str(); }
   return "T";
 }
 
@@ -360,8 +384,10 @@ void report(RES& res, const Desc& L, const Desc& R, Out& out) {
   Desc RD; res_desc(res, RD);
   long clen = 1;
   if (RD.rank == 2) clen = std::max(labs(RD.o[0]) * RD.d[0], labs(RD.o[1]) * RD.d[1]) + 1; else clen = RD.d[0] * labs(RD.o[0]) + 1;
-  std::set<const double*> cset;
-  for (size_t k = 0; k < RD.c.size(); ++k) cset.insert(res.const_data() + RD.c[k] - RD.base);
+  const int es = RD.elsize;
+  const char* resb = reinterpret_cast<const char*>(res.const_data());
+  std::set<const char*> cset;
+  for (size_t k = 0; k < RD.c.size(); ++k) cset.insert(resb + (RD.c[k] - RD.base) * es);
   bool any_xerbla = false;
   os << "calls";
   for (size_t n = 0; n < verif::blas_log.size(); ++n) {
@@ -372,21 +398,22 @@ void report(RES& res, const Desc& L, const Desc& R, Out& out) {
     bool inside = true;
     std::string names[3];
     for (int k = 0; k < 3; ++k) {
-      names[k] = classify_ptr(c.p[k], L, R, res.const_data(), clen);
+      names[k] = classify_ptr(c.p[k], L, R, res.const_data(), clen, es);
       if (k) os << ",";
       os << names[k];
       // containment of the touched elements in the operand's element set
       const Desc* D = names[k][0] == 'L' ? &L : names[k][0] == 'R' ? &R : 0;
       if (D) {
-        std::set<const double*> el;
-        for (size_t e = 0; e < D->c.size(); ++e) if (D->c[e] >= 0) el.insert(D->pbase + D->c[e]);
+        std::set<const char*> el;
+        for (size_t e = 0; e < D->c.size(); ++e) if (D->c[e] >= 0) el.insert(D->pbase + D->c[e] * D->elsize);
         for (size_t t = 0; t < c.touched[k].size(); ++t)
-          if (!el.count(static_cast<const double*>(c.p[k]) + c.touched[k][t])) inside = false;
+          if (!el.count(static_cast<const char*>(c.p[k]) + c.touched[k][t] * c.elsize)) inside = false;
+        if (c.elsize != D->elsize) inside = false;
         if (k == 2) inside = false;       // an operand must never be written
       } else if (names[k][0] == 'C') {
         for (size_t t = 0; t < c.touched[k].size(); ++t)
-          if (!cset.count(static_cast<const double*>(c.p[k]) + c.touched[k][t])) inside = false;
-        if (k != 2) inside = false;       // the fresh result must never be read
+          if (!cset.count(static_cast<const char*>(c.p[k]) + c.touched[k][t] * c.elsize)) inside = false;
+        if (k != 2 || c.elsize != es) inside = false;       // the fresh result must never be read
       }
     }
     os << ";";
@@ -404,9 +431,54 @@ void report(RES& res, const Desc& L, const Desc& R, Out& out) {
   out.text += os.str();
 }
 
+// The statements the product recorded (conversions by promote_array, copies of doubly strided operands, and one statement per
+// result element), each as  <lhs>:<multiplier>*<gradient index>,...  with gradient indices given symbolically:
+//   L+k / R+k  cell k of the left / right parent,  C+k  cell k of the result's storage,
+//   T+k        the k-th gradient index allocated after the operands were built (temporaries created inside matmul),
+//   ?g         anything else (raw index)
+struct TapeMark { long first_stmt, tbase; bool gaps; };
+inline TapeMark tape_mark() {
+  TapeMark m; m.first_stmt = (long)g_stack->n_statements(); m.tbase = g_stack->next_gradient(); m.gaps = !g_stack->no_gaps();
+  return m;
+}
+inline std::string gref(long g, const Desc& L, const Desc& R, long cbase, long clen, long tbase) {
+  std::ostringstream os;
+  if (L.active && L.gbase >= 0 && g >= L.gbase && g < L.gbase + L.ncells) os << "L+" << (g - L.gbase);
+  else if (R.active && R.gbase >= 0 && g >= R.gbase && g < R.gbase + R.ncells) os << "R+" << (g - R.gbase);
+  else if (cbase >= 0 && g >= cbase && g < cbase + clen) os << "C+" << (g - cbase);
+  else if (g >= tbase) os << "T+" << (g - tbase);
+  else os << "?" << g;
+  return os.str();
+}
+inline std::string mult_str(double m) {
+  std::ostringstream os;
+  if (m == (double)(long long)m && m > -1e15 && m < 1e15) os << (long long)m;
+  else { char b[40]; snprintf(b, sizeof b, "%.17g", m); os << b; }
+  return os.str();
+}
+template <class T, bool A, int Rank>
+void tape_report(Array<Rank, T, A>& res, const Desc& L, const Desc& R, const TapeMark& mk, Out& out) {
+  if (!A) return;
+  Desc RD; res_desc(res, RD);
+  long clen = 0;
+  for (size_t k = 0; k < RD.c.size(); ++k) clen = std::max(clen, RD.c[k] - RD.base + 1);
+  long cbase = (long)res.gradient_index();
+  std::ostringstream os;
+  os << " ; tape";
+  if (mk.gaps) os << " GAPS";
+  for (long i = mk.first_stmt; i < (long)g_stack->n_statements(); ++i) {
+    os << " " << gref((long)g_stack->st_index(i), L, R, cbase, clen, mk.tbase) << ":";
+    for (long j = (long)g_stack->st_end(i - 1); j < (long)g_stack->st_end(i); ++j) {
+      if (j > (long)g_stack->st_end(i - 1)) os << ",";
+      os << mult_str(g_stack->op_mult(j)) << "*" << gref((long)g_stack->op_index(j), L, R, cbase, clen, mk.tbase);
+    }
+  }
+  out.text += os.str();
+}
+
 // Jacobian of up to three result elements w.r.t. every storage cell of the active operands' parents
-template <bool A, int Rank>
-void jac_report(Array<Rank, double, A>& res, const Desc& L, const Desc& R, Out& out) {
+template <class T, bool A, int Rank>
+void jac_report(Array<Rank, T, A>& res, const Desc& L, const Desc& R, Out& out) {
   if (!A) return;
   Desc RD; res_desc(res, RD);
   size_t n = RD.v.size();
@@ -442,8 +514,9 @@ template <bool OK> struct Product {
     out.text = "L " + LD.str() + " ; R " + RD.str() + " ; ";
     verif::blas_log.clear();
     try {
-      if (use_op) { auto res = l ** r; report(res, LD, RD, out); jac_report(res, LD, RD, out); }
-      else { auto res = matmul(l, r); report(res, LD, RD, out); jac_report(res, LD, RD, out); }
+      TapeMark mk = tape_mark();
+      if (use_op) { auto res = l ** r; report(res, LD, RD, out); tape_report(res, LD, RD, mk, out); jac_report(res, LD, RD, out); }
+      else { auto res = matmul(l, r); report(res, LD, RD, out); tape_report(res, LD, RD, mk, out); jac_report(res, LD, RD, out); }
     } catch (const std::exception& e) {
       out.text += std::string("EXC ") + exc_name(e);
     }
@@ -477,8 +550,9 @@ struct XVisitor {
   XVisitor(bool u, bool xl, const Spec& o, Out& ot) : use_op(u), x_is_left(xl), other(o), out(ot) {}
   template <class T> void go(const T& x, Desc& D) {
     g_stack->new_recording();   // values are set; operands of this case are registered; start a clean recording
-    if (x_is_left) { PartnerRight<T> p(use_op, x, D, out); build_dense(other, p); }
-    else { PartnerLeft<T> p(use_op, x, D, out); build_dense(other, p); }
+    // the partner has the element type of X (Pf / Qf lines: float)
+    if (x_is_left) { PartnerRight<T> p(use_op, x, D, out); build_dense<typename T::type>(other, p); }
+    else { PartnerLeft<T> p(use_op, x, D, out); build_dense<typename T::type>(other, p); }
   }
 };
 
@@ -492,6 +566,10 @@ bool build_group_s3(const Spec& s, XVisitor& v);
 bool build_group_s4(const Spec& s, XVisitor& v);
 bool build_group_s5(const Spec& s, XVisitor& v);
 bool build_group_s6(const Spec& s, XVisitor& v);
+bool build_group_flt_dense(const Spec& s, XVisitor& v);
+bool build_group_flt_fixed(const Spec& s, XVisitor& v);
+bool build_group_flt_s1(const Spec& s, XVisitor& v);
+bool build_group_flt_s2(const Spec& s, XVisitor& v);
 
 } // namespace mm
 #endif
